@@ -244,8 +244,174 @@ def data_session(seed, n_steps=120, faults=True, with_close=False, with_partial=
     s.op("nodes")
     s.op("closed 1")
     s.op("closed 2")
+    s.op("chans 1")
+    s.op("chans 2")
     if rng.random() < 0.3:
         s.op("uninit %d" % rng.choice([1, 2]))
+    return s.ops
+
+
+def deep_session(seed):
+    """C01 / C04 / C13: one reliable bunch is lost (or is processed but its packet NAKed) and 100-250 later reliable bunches of the
+    same channel reach the peer before its retransmission: the receive queue is deep and the 10-bit wire residue is far from the
+    reference, on either side of the 1024 wrap"""
+    rng = random.Random(seed)
+    s = Session(rng)
+    s.op("reset")
+    s.op("conn 1")
+    s.op("conn 2")
+    a_out, b_out = seq_choice(rng), seq_choice(rng)
+    s.op("seqinit 1 %d %d" % (b_out, a_out))
+    s.op("seqinit 2 %d %d" % (a_out, b_out))
+    s.note("peers 1 2")
+    ch = rng.choice([0, 1, 3, 64, 8192])
+    s.op("send 1 %d 9 0 1 8 %d" % (ch, s.next_pseed()))
+    drain(s, 1, 2, rounds=1)
+    # move the channel sequence toward (or across) the 10-bit wrap first
+    pre = rng.choice([0, 0, 200, 500, 760, 900, 1010])
+    for i in range(pre):
+        s.op("send 1 %d 8 0 0 %d %d" % (ch, rng.choice([0, 1, 8]), s.next_pseed()))
+        if i % 40 == 39:
+            drain(s, 1, 2, rounds=1)
+    if pre:
+        drain(s, 1, 2, rounds=2)
+    nvictims = rng.choice([1, 1, 2])
+    for v in range(nvictims):
+        s.op("send 1 %d 8 0 0 %d %d" % (ch, rng.choice([8, 100, 1000]), s.next_pseed()))
+        orphan = rng.random() < 0.35
+        if orphan:
+            # an unreliable follow-up fragment without its initial one: refused, so the packet is processed but not acknowledged
+            s.op("send 1 %d 64 0 0 16 %d" % (ch, s.next_pseed()))
+        s.op("flush 1")
+        s.op("dln 2 1" if orphan else "drop 1")
+        n_after = rng.randint(100, 250) // nvictims
+        i = 0
+        while i < n_after:
+            k = rng.randint(3, 14)
+            for _ in range(min(k, n_after - i)):
+                s.op("send 1 %d 8 0 0 %d %d" % (ch, rng.choice([0, 1, 8, 9, 33]), s.next_pseed()))
+            i += k
+            s.op("flush 1")
+            s.op("dln 2 1")
+    s.note("drain")
+    drain(s, 1, 2, rounds=8)
+    # keep the channel going until the reference has passed every parked sequence
+    for i in range(rng.choice([0, 10, 140, 270])):
+        s.op("send 1 %d 8 0 0 8 %d" % (ch, s.next_pseed()))
+        if i % 30 == 29:
+            drain(s, 1, 2, rounds=1)
+    drain(s, 1, 2, rounds=6)
+    s.note("drained")
+    s.op("nodes")
+    s.op("closed 1")
+    s.op("closed 2")
+    return s.ops
+
+
+def wrap_partial_session(seed):
+    """C03 / C13: unreliable (and reliable) partial groups whose fragments travel in consecutive packets on either side of the 14-bit
+    packet-sequence wrap and of the 10-bit channel-sequence wrap; no loss, so every group must be delivered"""
+    rng = random.Random(seed)
+    s = Session(rng)
+    s.op("reset")
+    magic = rng.choice([(0, 0), (0, 0), (8, 0xA5)])
+    if magic[0]:
+        s.op("cfg magic %d %d" % magic)
+    s.op("conn 1")
+    s.op("conn 2")
+    a_out = (16384 - rng.randint(1, 12)) % 16384
+    b_out = seq_choice(rng)
+    s.op("seqinit 1 %d %d" % (b_out, a_out))
+    s.op("seqinit 2 %d %d" % (a_out, b_out))
+    s.note("peers 1 2")
+    ch = rng.choice([1, 2, 64])
+    s.op("send 1 %d 9 0 1 8 %d" % (ch, s.next_pseed()))
+    s.op("flush 1")
+    s.op("dla 2 1")
+    for g in range(rng.randint(3, 8)):
+        k = rng.randint(2, 4)
+        rel = 8 if rng.random() < 0.25 else 0
+        for i in range(k):
+            fl = rel | FLAG["partial"] | (FLAG["pinit"] if i == 0 else 0) | (FLAG["pfinal"] if i == k - 1 else 0)
+            s.op("send 1 %d %d 0 0 %d %d" % (ch, fl, rng.choice([7264, 4000, 64, 8]), s.next_pseed()))
+            if rng.random() < 0.8:
+                s.op("flush 1")
+        s.op("flush 1")
+        s.op("dla 2 1")
+        if rng.random() < 0.4:
+            s.op("tick 250000000")
+            s.op("flush 2")
+            s.op("dla 1 2")
+    s.note("drain")
+    drain(s, 1, 2, rounds=4)
+    s.note("drained")
+    s.op("nodes")
+    return s.ops
+
+
+def close_burst_session(seed):
+    """C10 / C16: several channels that are neighbours in the open-channel table are closed together, their closes are acknowledged
+    together and one deferred-teardown sweep has to release all of them; a released index is then opened again"""
+    rng = random.Random(seed)
+    s = Session(rng)
+    s.op("reset")
+    s.op("conn 1")
+    s.op("conn 2")
+    a_out, b_out = seq_choice(rng), seq_choice(rng)
+    s.op("seqinit 1 %d %d" % (b_out, a_out))
+    s.op("seqinit 2 %d %d" % (a_out, b_out))
+    s.note("peers 1 2")
+    pool = sorted(rng.sample([0, 1, 2, 3, 4, 5, 6, 63, 64, 65, 8191, 8192, 32766], rng.randint(3, 7)))
+    for ch in pool:
+        s.op("send 1 %d 9 0 1 %d %d" % (ch, rng.choice([8, 40]), s.next_pseed()))
+    drain(s, 1, 2, rounds=2, update=True)
+    closing = sorted(rng.sample(pool, rng.randint(2, len(pool))))
+    for ch in pool:
+        for _ in range(rng.randint(0, 2)):
+            s.op("send 1 %d 8 0 0 %d %d" % (ch, payload_bits(rng, small=True), s.next_pseed()))
+    for ch in closing:
+        s.op("send 1 %d 10 %d 0 %d %d" % (ch, rng.randint(0, 14), rng.choice([0, 8]), s.next_pseed()))
+    s.op("flush 1")
+    lost = rng.random() < 0.5
+    if lost:
+        s.op("drop 1")
+        rest = [c for c in pool if c not in closing]
+        if rest:
+            s.op("send 1 %d 8 0 0 8 %d" % (rest[0], s.next_pseed()))
+        s.op("tick 250000000")
+        s.op("flush 1")
+        s.op("dla 2 1")
+        if rng.random() < 0.5:
+            s.op("update 2")
+        s.op("tick 250000000")
+        s.op("flush 2")
+        s.op("dla 1 2")          # nak -> retransmission buffered
+        if rng.random() < 0.5:
+            s.op("update 1")
+        s.op("flush 1")
+    s.op("dla 2 1")
+    s.op("tick 250000000")
+    s.op("flush 2")
+    s.op("dla 1 2")              # every close acknowledged by the same datagram
+    s.note("drain")
+    drain(s, 1, 2, rounds=4, update=True)
+    s.note("drained")
+    s.op("nodes")
+    s.op("chans 1")
+    s.op("chans 2")
+    # a released index is opened again and used; an unrelated channel is closed afterwards
+    re = rng.choice(closing)
+    s.op("send 1 %d 9 0 1 8 %d" % (re, s.next_pseed()))
+    drain(s, 1, 2, rounds=2, update=True)
+    others = [c for c in pool if c not in closing]
+    if others:
+        s.op("send 1 %d 10 0 0 8 %d" % (others[0], s.next_pseed()))
+    drain(s, 1, 2, rounds=3, update=True)
+    s.op("send 1 %d 8 0 0 24 %d" % (re, s.next_pseed()))
+    drain(s, 1, 2, rounds=3, update=True)
+    s.op("nodes")
+    s.op("chans 1")
+    s.op("chans 2")
     return s.ops
 
 
@@ -315,10 +481,18 @@ def clock_session(seed):
         s.op("conn 1")
         s.op("connect 1")
         s.op("onaccept 10 9.9.9.9:9 2")
-        s.op("route 10 9.9.9.9:9 1")
-        s.op("dln 1 10")
-        s.op("route 10 9.9.9.9:9 1")
-        s.op("dln 1 10")
+        s.note("clock")
+        # the handshake may be slow: update calls and clock advances while the client is still handshaking
+        for _ in range(rng.choice([0, 0, 1, 2, 4])):
+            s.op("tick %d" % (rng.choice([100, 999, 1000, 1001, 30000, 119000, 121000]) * 1000000))
+            s.op("update 1")
+            if rng.random() < 0.4:
+                s.op("drop 1")
+        for _ in range(3):
+            for _ in range(3):
+                s.op("route 10 9.9.9.9:9 1")
+            s.op("dla 1 10")
+            s.op("dla 1 2")
         s.note("peers 1 2")
     else:
         s.op("conn 1")
@@ -433,7 +607,7 @@ def handshake_session(seed, fates=None, n_fate=6, hostile=False, tick_ms=None, a
             s.op("rot 10")
         if hostile and rng.random() < 0.5:
             s.note("hostile")
-            hostile_ops(s, rng, [1, 2], [1, 2, 10], listener=(10, addr))
+            hostile_ops(s, rng, [1, 2], [1, 2, 10], listener=(10, addr), magic_bits=magic[0])
         s.op("tick %d" % (tick_ms * 1000000))
         s.op("update 1")
         s.op("update 2")
@@ -442,8 +616,8 @@ def handshake_session(seed, fates=None, n_fate=6, hostile=False, tick_ms=None, a
             s.op("flush 2")
     s.note("settled")
     # data after the handshake
-    s.op("send 1 0 9 0 1 30 %d" % s.next_pseed())
-    s.op("send 2 0 9 0 1 40 %d" % s.next_pseed())
+    s.op("ifconn 1 send 1 0 9 0 1 30 %d" % s.next_pseed())   # the application sends only on an endpoint that reported connected
+    s.op("ifconn 2 send 2 0 9 0 1 40 %d" % s.next_pseed())
     for _ in range(4):
         s.op("tick 250000000")
         s.op("flush 1")
@@ -456,12 +630,17 @@ def handshake_session(seed, fates=None, n_fate=6, hostile=False, tick_ms=None, a
     return s.ops
 
 
-def hostile_ops(s, rng, conns, srcs, listener=None, n=None):
+def hostile_ops(s, rng, conns, srcs, listener=None, n=None, magic_bits=0):
     for _ in range(n or rng.randint(1, 6)):
         r = rng.random()
         dst = rng.choice(conns)
         src = rng.choice(srcs)
-        if r < 0.45:
+        if r < 0.12:
+            # every field of the packed packet header of a data datagram: history word count (4 bits), acked sequence, sequence
+            # (layout: magic, 2+3 id bits, handshake bit, then the 32-bit packed header LSB first)
+            off = magic_bits + 6 + rng.choice([0, 0, 0, 4, 8, 12, 14, 18, 22, 26, 28])
+            s.op("%s %d %d %d nib %d %d" % (rng.choice(["mut", "mut", "wmut"]), dst, src, -rng.randint(1, 6), off, rng.choice([8, 9, 15, 15, 7, 0, rng.randint(0, 15)])))
+        elif r < 0.45:
             kind = rng.choice(["flip", "flip", "flip", "setb", "trunc", "app"])
             a = rng.randint(0, 9000) if kind != "flip" or rng.random() < 0.5 else rng.randint(0, 400)
             b = rng.choice([0, 1, 255, 128, rng.randint(0, 255)])
@@ -493,11 +672,15 @@ def hostile_session(seed):
     base = data_session(rng.randint(0, 1 << 30), n_steps=60, with_close=rng.random() < 0.3, updates=True)
     s = Session(rng)
     out = []
+    mb = 0
+    for line in base:
+        if line.startswith("cfg magic"):
+            mb = int(line.split()[2])
     for line in base:
         out.append(line)
         if line.startswith(("dln", "flush", "send")) and rng.random() < 0.15:
             s.ops = []
-            hostile_ops(s, rng, [1, 2], [1, 2], n=rng.randint(1, 3))
+            hostile_ops(s, rng, [1, 2], [1, 2], n=rng.randint(1, 3), magic_bits=mb)
             out += s.ops
     out.append("closed 1")
     out.append("closed 2")
@@ -565,8 +748,12 @@ def listener_session(seed):
                 # any bit of the payload proper (beyond the magic/session/client/handshake/restart header bits, before padding)
                 # any bit of the echoed secret id, timestamp or cookie (layout: magic, 2+3+1 header bits, restart bit, 4 version/type/count bytes, 32-bit net version)
                 s.op("lmut 10 %s %d 0 flip %d 0" % (addr, c, rng.randint(magic[0] + 71, magic[0] + 71 + 1 + 64 + 160 - 1)))
-            elif kind < 0.8:
+            elif kind < 0.65:
                 s.op("ldlv 10 %s %d 0" % (addr + "x" if len(addr) < 63 else addr[:-1], c))
+            elif kind < 0.8:
+                # a different address string of the same length (one character changed)
+                i = rng.randrange(len(addr))
+                s.op("ldlv 10 %s %d 0" % (addr[:i] + ("q" if addr[i] != "q" else "r") + addr[i + 1:], c))
             else:
                 s.op("lmut 10 %s %d 0 trunc %d 0" % (addr, c, rng.randint(0, 40)))  # always cuts into the cookie or before it
         cid += 1
@@ -608,7 +795,7 @@ def listener_session(seed):
                 s.note("expect any")
                 s.op("lcraft 10 %s %d 0 -1 %d %d %d -1 -1 -1 %d" % (addr, c, rng.choice([0, 1, 2, 3, 4, 5, 6, 255]), rng.choice([0, 1, 2, 3, 4, 200]), rng.randint(0, 255), rng.randint(0, 31)))
         s.note("hostile")
-        hostile_ops(s, rng, [c], [c, 10], listener=(10, addr), n=rng.randint(0, 3))
+        hostile_ops(s, rng, [c], [c, 10], listener=(10, addr), n=rng.randint(0, 3), magic_bits=magic[0])
         # the twin is asked the same question with the same clock and random state: the answers must be identical
         for _ in range(rng.randint(1, 3)):
             pa, pb = rng.randint(1, 1 << 30), rng.randint(1, 1 << 30)
@@ -706,8 +893,8 @@ def hs_replay_session(seed):
         else:
             s.op("rpl 2 1 %d" % rng.randint(0, 6))          # old client datagrams to the server-side connection
         if rng.random() < 0.5:
-            s.op("send 1 0 8 0 1 %d %d" % (payload_bits(rng, small=True), s.next_pseed()))
-            s.op("send 2 0 8 0 1 %d %d" % (payload_bits(rng, small=True), s.next_pseed()))
+            s.op("ifconn 1 send 1 0 8 0 1 %d %d" % (payload_bits(rng, small=True), s.next_pseed()))
+            s.op("ifconn 2 send 2 0 8 0 1 %d %d" % (payload_bits(rng, small=True), s.next_pseed()))
             s.op("tick 250000000")
             s.op("flush 1")
             s.op("route 10 %s 1" % addr)
@@ -806,8 +993,8 @@ def hs_stray_session(seed):
             s.op("flush 1")
             s.op("flush 2")
     s.note("settled")
-    s.op("send 1 0 9 0 1 30 %d" % s.next_pseed())
-    s.op("send 2 0 9 0 1 40 %d" % s.next_pseed())
+    s.op("ifconn 1 send 1 0 9 0 1 30 %d" % s.next_pseed())   # the application sends only on an endpoint that reported connected
+    s.op("ifconn 2 send 2 0 9 0 1 40 %d" % s.next_pseed())
     for _ in range(4):
         s.op("tick 250000000")
         s.op("flush 1")
